@@ -44,7 +44,11 @@ DPH_FIELDS = (("type", 0, 0, 5), ("route_string", 0, 5, 20), ("device_address", 
 
 
 def configs(tier):
-    return [dict(dut="tx", mode="wide"), dict(dut="tx", mode="closure"), dict(dut="loop", mode="wide"), dict(dut="loop", mode="closure")]
+    # mode "both": the first packet of a path is taken from the closure alphabet (the path then continues with any sequence of
+    # closure-alphabet packets) or from the wide alphabet (the path ends after that packet).  One configuration per DUT keeps
+    # the number of (expensive) amaranth.sim elaborations of the CRC networks small.
+    if tier == "quick": return [dict(dut="tx", mode="both"), dict(dut="loop", mode="both")]
+    return [dict(dut="tx", mode="both"), dict(dut="loop", mode="wide"), dict(dut="loop", mode="closure")]
 
 
 # ------------------------------------------------------------------------------------------------ alphabets
@@ -229,13 +233,17 @@ class PacketSpec(Spec):
         super().__init__(cfg, tier)
         ref.calibrate()
         self.loop = cfg["dut"] == "loop"
-        self.wide = cfg["mode"] == "wide"
+        self.mode = cfg["mode"]
         self.time_budget = 150 if tier == "quick" else 800      # wall clock on a shared machine; the BFS itself takes < 5 s of CPU
-        self.n_validate = 2 if tier == "quick" else 5      # every replay re-elaborates the CRC-32 networks in amaranth.sim (~10 s CPU each)
-        self.packets = wide_alphabet(tier, self.loop) if self.wide else closure_alphabet(tier)
+        # every amaranth.sim replay re-elaborates the CRC-32 / CRC-16 networks: ~10 s CPU for tx, ~30 s for the loop, per trace
+        self.n_validate = (1 if self.loop else 2) if tier == "quick" else (2 if self.loop else 5)
+        clo = closure_alphabet(tier) if self.mode in ("closure", "both") else []
+        self.nclosure = len(clo)            # packets[:nclosure] may be followed by further packets, the others end the path
+        self.packets = clo + (wide_alphabet(tier, self.loop) if self.mode in ("wide", "both") else [])
         self._enc = {}
         self._sink = {}
         self._gen = [("gen", i) for i in range(len(self.packets))]
+        self._gen_closure = self._gen[:self.nclosure]
 
     def build(self):
         d, (ins, obs) = build_loop() if self.loop else build_tx()
@@ -254,7 +262,7 @@ class PacketSpec(Spec):
                   "expected_sequence equals the sequence number of the header being sent; DW1[31:16] of a data header equals the payload length",
                   f"the header report is due within {MAXLAT} cycles after DW3, packet_good within {MAXVERDICT} cycles after the last word of the packet",
                   "the data receiver's behaviour on an aborted (delayed, EDB-terminated) payload is not constrained"]
-        if self.wide: a.append("wide mode: one packet per path, starting from the reset state")
+        if self.mode != "closure": a.append("packets of the wide alphabet: one packet per path, starting from the reset state")
         return a
 
     # env = (phase, pkt, idx, encmask, spos, wait, rx)
@@ -274,7 +282,7 @@ class PacketSpec(Spec):
 
     def actions(self, env):
         phase = env[0]
-        if phase == 0: return [("idle",)] + self._gen
+        if phase == 0: return [("idle",)] + (self._gen if env[1] < 0 else self._gen_closure)
         if phase == 1: return [("run", r, g) for r in (0, 1) for g in (0, 1)]
         return [("idle",)] if env[5] < DRAIN else []
 
@@ -366,7 +374,7 @@ class PacketSpec(Spec):
             self.cover["packet_sent"] += 1
             if is_data(h) and h[6]: self.cover["aborted_dpp"] += 1
             self.outcomes.add(p)
-            return (2 if self.wide else 0, p, 0, 0, 0, 0, rx)
+            return (2 if p >= self.nclosure else 0, p, 0, 0, 0, 0, rx)
         return (1, p, idx, encmask, spos, wait, rx)
 
     def check_idle(self, o, env):
@@ -454,7 +462,7 @@ class PacketSpec(Spec):
 
     def goals(self):
         g = ["request", "packet_sent", "stalled", "payload_word_taken", "zlp", "aborted_dpp", "dpp_0B_tail", "dpp_1B_tail", "dpp_2B_tail", "dpp_3B_tail"]
-        if not self.wide: g.append("packet_after_packet")
+        if self.mode != "wide": g.append("packet_after_packet")
         if self.loop: g += ["header_round_trip"] + ["data_round_trip_%dB_tail" % i for i in range(4)]
         return g
 
